@@ -23,7 +23,7 @@ type c11 struct{ base }
 
 func init() {
 	core.Register(c11{base{id: "C11", level: "exploration", quickB: 16, thoroughB: 32,
-		rule:        "server TLS configurations {none, empty tls.Config, self-signed certificate (TLS 1.2 only / TLS 1.3)} x client behaviours {plain startup, SSLRequest + handshake + generated session, SSLRequest with plaintext startup + canary Query stuffed into the same segment or a later segment before the handshake, repeated SSLRequest inside TLS, malformed / oversized / sub-minimum startup packets sent inside TLS, GSSENCRequest (and, if it is declined with N on an open connection, an SSLRequest after it), raw plaintext protocol bytes injected under an established TLS session} x sessions from the C15 session generator (typed tables, extended histories, COPY, errors, oversized). Monitors on the raw wire tap: reply to SSLRequest is exactly 'S' (certificates) or 'N' (none); every raw server byte after 'S' parses as TLS records (type 20-23, version 0x0301-0x0304, length <= 2^14+256, exact framing); unique canary strings (query texts, values, tags, error texts) never appear in the raw server stream; the decrypted transcript and callback trace equal the plaintext run of the same session; stuffed/injected canaries never reach a callback. Non-trivial = TLS session with at least one query, or a stuffing/injection case; distinct = (config, behaviour, session shape).",
+		rule:        "server TLS configurations {none, empty tls.Config, self-signed certificate (TLS 1.2 only / TLS 1.3)} x client behaviours {plain startup, SSLRequest + handshake + generated session, SSLRequest with plaintext startup + canary Query stuffed into the same segment or a later segment before the handshake, repeated SSLRequest inside TLS, malformed / oversized / sub-minimum startup packets sent inside TLS, GSSENCRequest (and, if it is declined with N on an open connection, an SSLRequest after it), raw plaintext protocol bytes injected under an established TLS session, SSLRequest on a connection accepted before Server.Close} x sessions from the C15 session generator (typed tables, extended histories, COPY, errors, oversized). Monitors on the raw wire tap: reply to SSLRequest is exactly 'S' (certificates) or 'N' (none); every raw server byte after 'S' parses as TLS records (type 20-23, version 0x0301-0x0304, length <= 2^14+256, exact framing); unique canary strings (query texts, values, tags, error texts) never appear in the raw server stream; the decrypted transcript and callback trace equal the plaintext run of the same session; stuffed/injected canaries never reach a callback. Non-trivial = TLS session with at least one query, or a stuffing/injection case; distinct = (config, behaviour, session shape).",
 		need:        []string{"tls_sessions", "tls_records_parsed", "canary_searches", "plaintext_equal_sessions", "stuffing_cases", "injection_cases", "no_cert_replies_N"},
 		assumptions: append([]string{"crypto/tls is trusted for the cryptography itself; the check decides which bytes travel inside the session and what the server does with bytes outside it"}, commonAssumptions...)}})
 }
@@ -165,6 +165,29 @@ func (ch c11) Run(c *core.Ctx) {
 	defer envTLS.Stop()
 	defer envNone.Stop()
 	defer envEmpty.Stop()
+	// an SSLRequest that arrives on a connection accepted before Server.Close was called: the answer is
+	// still the single byte of the rule (or the connection is closed without any answer), never anything else
+	for k := 0; k < 2 && c.Begin(900000+k); k++ {
+		want := "S"
+		e2 := hs.Start(hs.Parse, wire.TLSConfig(hs.ServerTLS()))
+		if k == 1 {
+			want = "N"
+			e2.Stop()
+			e2 = hs.Start(hs.Parse)
+		}
+		conn := e2.Dial(&hs.Sess{})
+		conn.Quiesce() // accepted, the server waits for the first packet
+		e2.Srv.Close()
+		conn.Send(pg.SSLRequest())
+		closed, _ := conn.Quiesce()
+		if got := string(conn.Out()); got != want && !(got == "" && closed) {
+			c.Violate("ssl-reply", "SSLRequest on a connection accepted before Close not answered with the single byte "+want, fmt.Sprintf("%q closed=%v", trim(got, 80), closed), nil)
+		}
+		c.Count("sslrequest_after_close", 1)
+		c.Eval("sslrequest after close "+want, true)
+		conn.CloseWrite()
+		conn.WaitClosed()
+	}
 	for i := 0; i < n; i++ {
 		if !c.Begin(i) || c.NViol() >= 10 {
 			continue
